@@ -140,8 +140,24 @@ static std::string json_parse(const JV& st, Session& S) {
   const char* nan_s = markers ? "nan" : nullptr;
   const char* inf_s = markers ? "inf" : nullptr;
   const char* minf_s = markers ? "-inf" : nullptr;
+  std::string h1, h2, h3;
+  if (st.HasMember("nan_string") || st.HasMember("infinity_string") || st.HasMember("minus_infinity_string") || st.HasMember("path")) {
+    // L2: exactly the strings the caller of ak.from_json chose (none by default)
+    nan_s = inf_s = minf_s = nullptr;
+    if (st.HasMember("nan_string")) { h1 = gets(st, "nan_string", ""); nan_s = h1.c_str(); }
+    if (st.HasMember("infinity_string")) { h2 = gets(st, "infinity_string", ""); inf_s = h2.c_str(); }
+    if (st.HasMember("minus_infinity_string")) { h3 = gets(st, "minus_infinity_string", ""); minf_s = h3.c_str(); }
+  }
+  double resize = st.HasMember("resize_num") ? (double)geti(st, "resize_num", 3) / (double)geti(st, "resize_den", 2) : 1.5;
   ak::ContentPtr c;
-  if (geti(st, "file", 0) != 0) {
+  if (st.HasMember("path")) {
+    FILE* f = fopen(gets(st, "path", "").c_str(), "rb");
+    if (f == nullptr) throw std::invalid_argument("file \"" + gets(st, "path", "") + "\" could not be opened for reading");
+    try { c = ak::FromJsonFile(f, ak::ArrayBuilderOptions(initial, resize), geti(st, "buffersize", 65536), nan_s, inf_s, minf_s); }
+    catch (...) { fclose(f); throw; }
+    fclose(f);
+  }
+  else if (geti(st, "file", 0) != 0) {
     FILE* f = tmpfile();
     if (f == nullptr) throw HarnessError("tmpfile failed");
     fwrite(text.data(), 1, text.size(), f);
